@@ -54,23 +54,45 @@ def _vocab(C):
     return [data.Tag(key="species", value=f"sp{k}") for k in range(1, C + 1)]
 
 
+_ALIKE_LABEL = data.Term(label="species", name="other_scheme:species", definition="Species in another naming scheme")
+_ALIKE_NAME = data.Term(label="Species (alternative)", name="soundevent:species", definition="Unknown")
+
+
+def _alike(case, tag):
+    """Styles 2 / 3: a tag of a DIFFERENT term that shares label (2) or name (3) and the value with a vocabulary tag.
+    It equals no vocabulary tag, so it names no class."""
+    return data.Tag(term=_ALIKE_LABEL if case["style"] == 2 else _ALIKE_NAME, value=tag.value)
+
+
 def _truth_tags(case, it, T):
     """Tags of an annotation realising the truth of item `it`."""
+    C = case["C"]
     if case["task"] == "cml":
-        tags = [T[k] for k in range(case["C"]) if it["y"][k]]
+        tags = [T[k] for k in range(C) if it["y"][k]]
+        missing = [T[k] for k in range(C) if not it["y"][k]]
     else:
         tags = [T[it["t"] - 1]] if it["t"] else []
-    return ([_OOV] + tags) if case["style"] else tags
+        missing = [T[k] for k in range(C) if k != it["t"] - 1]
+    if case["style"] == 1:
+        return [_OOV] + tags
+    if case["style"] in (2, 3) and missing:
+        # look-alikes of classes the item does NOT have, ahead of its real tags
+        return [_alike(case, missing[(sum(it["s"]) + it["t"]) % len(missing)])] + tags
+    return tags
 
 
 def _pred_tags(case, it, T):
-    """Predicted tags realising the score ticks of item `it` (style 1: explicit zeros and an out-of-vocabulary tag)."""
-    u = case["u"]
+    """Predicted tags realising the score ticks of item `it` (style 1: explicit zeros and an out-of-vocabulary tag;
+    styles 2 / 3: a look-alike of one vocabulary tag, after the real ones, with a score that must not count)."""
+    u, C = case["u"], case["C"]
     out = [data.PredictedTag(tag=T[k], score=it["s"][k] / u)
-           for k in range(case["C"]) if it["s"][k] or case["style"]]
-    if case["style"]:
-        rest = (u - sum(it["s"])) / u if case["task"] != "cml" else 0.75
+           for k in range(C) if it["s"][k] or case["style"] == 1]
+    rest = (u - sum(it["s"])) / u if case["task"] != "cml" else 0.75
+    if case["style"] == 1:
         out.insert(0, data.PredictedTag(tag=_OOV, score=max(rest, 0.0)))
+    elif case["style"] in (2, 3):
+        k = (sum(it["s"]) + it["t"] + sum(it["y"])) % C
+        out.append(data.PredictedTag(tag=_alike(case, T[k]), score=max(rest, 0.0)))
     return out
 
 
@@ -103,7 +125,7 @@ def _build(case):
             if not kind.startswith("ann"):
                 item_of[sp.uuid] = i
                 sps.append(data.SoundEventPrediction(sound_event=sp, score=1.0, tags=_pred_tags(case, it, T)))
-        extra = case["style"] and case["C"] >= 1
+        extra = case["style"] == 1 and case["C"] >= 1
         anns.append(data.ClipAnnotation(clip=clip, sound_events=sas, tags=[T[0]] if extra else []))
         preds.append(data.ClipPrediction(clip=clip, sound_events=sps,
                                          tags=[data.PredictedTag(tag=T[-1], score=0.5)] if extra else []))
@@ -269,7 +291,7 @@ def random_cases(rng, tier):
         made += 1
         extras = [{"pos": rng.randrange(len(clips) + 1), "side": rng.choice(["pred", "pred", "ann"])}
                   for _ in range(rng.choice([0, 0, 1, 1, 2, 3]))]
-        yield {"task": task, "C": C, "u": u, "items": items, "clips": clips, "extras": extras, "style": rng.randrange(2)}
+        yield {"task": task, "C": C, "u": u, "items": items, "clips": clips, "extras": extras, "style": rng.randrange(4)}
 
 
 def nontrivial(o):
